@@ -466,6 +466,8 @@ val mean_filter : z -> arr -> arr -> (z * z) list
 
 val wrapd : dt -> z -> z
 
+val tm_sample : z -> arr -> z list -> z list -> z option
+
 val tm_at : dt -> z -> arr -> arr -> z list -> z
 
 val template_match : dt -> z -> arr -> arr -> z list
@@ -479,6 +481,8 @@ val samples_spec : z -> arr -> arr -> z list -> z list
 val count_lt : z -> z list -> z
 
 val count_le : z -> z list -> z
+
+val window_sample : z -> arr -> z list -> z list -> z option
 
 val ssd_spec : z -> arr -> arr -> z list -> z
 
